@@ -48,3 +48,10 @@ Theorem C03_hypotheses_satisfiable :
                /\ In (EGSTATUS FRAGMENTED) toks /\ In ENSTATUS toks.
 Proof. exact (conj ex_e_wf ex_e_markers). Qed.
 Print Assumptions C03_hypotheses_satisfiable.
+
+(* stability: encoding the decoded graph again reproduces the token stream,
+   for any placement of the status markers *)
+Theorem C03_reencode_stable : forall frag disc p l g,
+  enc_gen frag disc p l (proj_veds p l g) = enc_gen frag disc p l g.
+Proof. exact enc_gen_stable. Qed.
+Print Assumptions C03_reencode_stable.
